@@ -1,25 +1,37 @@
 #!/bin/bash
 # usage: tools/selftest.sh [Cxx ...]   — sensitivity self-test: every stored mutant (mutants/<prop>/*.patch) and every confirmed
 # seeded change (seeded/<prop>-*/patch.diff) must make the property's check exit 1; the unchanged tree must exit 0.
-# One scratch worktree per mutant, removed immediately. Prints one line per mutant; exit 0 iff all detected.
+# One scratch worktree per mutant, removed immediately; VERIF_JOBS mutants in parallel (default 6).
+# Prints one line per mutant; exit 0 iff all detected.
 cd "$(dirname "$0")/.."
 PROPS="$@"
 [ -n "$PROPS" ] || PROPS=$(ls mutants | sort)
 fail=0
+# build once, so that parallel jobs never rebuild
+if [ -z "${VERIF_BIN:-}" ]; then ./setup.sh >/dev/null 2>&1 || { echo "BUILD FAILED"; exit 2; }; fi
+one() {
+  P=$1; m=$2
+  out=$(tools/mut.sh "$m" $P quick 2>&1); rc=$?
+  rule=$(echo "$out" | grep -E "^  (VIOLATED|UNDECIDED|ANCHOR-MISSING)" | head -1 | awk '{print $1, $2}')
+  case $rc in
+    1) echo "detected   $P $m  [$rule]";;
+    4) echo "SKIPPED    $P $m  (patch does not apply to the current tree)";;
+    *) echo "MISSED     $P $m  (exit $rc)";;
+  esac
+}
+export -f one
+list=$(mktemp)
 for P in $PROPS; do
   if [ -z "${VERIF_SELFTEST:-}" ]; then
     out=$(./run.sh $P quick 2>&1); rc=$?
     if [ $rc -ne 0 ]; then echo "BASE $P: exit $rc (expected 0)"; fail=1; fi
   fi
   for m in mutants/$P/*.patch seeded/$P-*/patch.diff; do
-    [ -f "$m" ] || continue
-    out=$(tools/mut.sh "$m" $P quick 2>&1); rc=$?
-    rule=$(echo "$out" | grep -E "^  (VIOLATED|UNDECIDED|ANCHOR-MISSING)" | head -1 | awk '{print $1, $2}')
-    case $rc in
-      1) echo "detected   $P $m  [$rule]";;
-      4) echo "SKIPPED    $P $m  (patch does not apply to the current tree)";;
-      *) echo "MISSED     $P $m  (exit $rc)"; fail=1;;
-    esac
+    [ -f "$m" ] && echo "$P $m" >> "$list"
   done
 done
+res=$(xargs -a "$list" -P "${VERIF_JOBS:-6}" -L 1 bash -c 'one "$0" "$1"' | sort -k2,3)
+rm -f "$list"
+echo "$res"
+echo "$res" | grep -q "^MISSED" && fail=1
 exit $fail
